@@ -179,7 +179,7 @@ class _OneIteration(Exception):
 
 @obligation("loop/inductive_step_any_rep_max", params=[{"first": f} for f in ("guard_and_body", )], timeout=300,
             desc="the repetition loop of _simulate_for_current_params_common for SYMBOLIC rep_max >= 1 from an ARBITRARY loop-head state "
-                 "(count c >= 0, merged value v, both symbolic - supplied through load_partial_results): if the guard fails the loop "
+                 "(count c >= 0, merged value v, number k >= 0 of repetitions skipped so far, all symbolic): if the guard fails the loop "
                  "exits with (c, v) unchanged and [stop rule said stop or c >= rep_max]; if it holds (then c < rep_max) one iteration "
                  "either merges exactly one new result and counts it (c+1 <= rep_max, v + x, one more update) or - SkipThisOne - leaves "
                  "count and value alone and records one skipped repetition.  By induction over the iterations: for every rep_max, "
@@ -188,13 +188,15 @@ class _OneIteration(Exception):
 def ob_loop_inductive(first):
     import ast
     from .C07 import _make_resuming_runner
+    from pyvc.interp import SObj, _Break
 
     def body(c, it):
         it.native_prefixes = list(NATIVE)
         R = c.var("rep_max", "int")
         c0 = c.var("count", "int")
-        c.assume((R >= 1) & (c0 >= 0))
-        c.inputs.update(rep_max=R, count=c0)
+        k0, u0 = c.var("skipped_so_far", "int"), c.var("skip_updates_so_far", "int")
+        c.assume((R >= 1) & (c0 >= 0) & (k0 >= 0) & (u0 >= 0))
+        c.inputs.update(rep_max=R, count=c0, skipped_so_far=k0)
         saved = []
         r, v0 = _make_resuming_runner(c, 7, 0, 1, saved)       # concrete values only while the (native) set-up runs
         r._simulate_common_setup()
@@ -231,10 +233,20 @@ def ob_loop_inductive(first):
 
         def hook(interp, s_, frame):
             st["head"] = (frame.vars["current_rep"], frame.vars["current_sim_results"])
+            # the arbitrary loop-head state includes ANY number of repetitions skipped so far
+            skr = _fld(frame.vars["current_sim_results"], "_results")["num_skipped_reps"][-1]
+            if isinstance(skr, SObj):
+                skr.fields["_value"] = k0
+                skr.fields["num_updates"] = u0
+            else:
+                skr._value, skr.num_updates = k0, u0
             if not interp.truth(interp.eval(s_.test, frame)):
                 st["exit"] = True
                 return
-            interp.exec_block(s_.body, frame)
+            try:
+                interp.exec_block(s_.body, frame)
+            except _Break:
+                st["broke"] = True
             st["after"] = (frame.vars["current_rep"], frame.vars["current_sim_results"])
             raise _OneIteration()
         it.loop_hooks[id(loops[0])] = hook
@@ -250,6 +262,8 @@ def ob_loop_inductive(first):
         except _OneIteration:
             rep1, res1 = st["after"]
             val, nup, nsk = view(res1)
+            goals.append(Goal("an iteration never leaves the loop by itself (only the guard ends it), however many repetitions were skipped",
+                              not st.get("broke")))
             goals.append(Goal("guard held => count < rep_max and the stop rule said go", (lift(c0) < R) & sym.SBool(z3.BoolVal(bool(kg and kg[-1][1])))))
             goals.append(Goal("the stop rule was asked with the current count", len(kg) == 1 and lift(kg[0][0]) == c0))
             succ = [t for t in r.trace if not isinstance(t, str)]
@@ -262,12 +276,12 @@ def ob_loop_inductive(first):
                 goals.append(Goal("count' == count + 1 (<= rep_max)", (lift(rep1) == c0 + 1) & (lift(rep1) <= R)))
                 goals.append(Goal("value' == value + new result", lift(val) == v0 + succ[0]))
                 goals.append(Goal("updates' == updates + 1", lift(nup) == c0 + 1))
-                goals.append(Goal("skipped count unchanged", lift(nsk) == 0))
+                goals.append(Goal("skipped count unchanged", lift(nsk) == k0))
             else:
                 goals.append(Goal("skipped repetition: one execution, none successful", nskip == 1))
                 goals.append(Goal("count' == count", lift(rep1) == c0))
                 goals.append(Goal("value' == value, updates unchanged", (lift(val) == v0) & (lift(nup) == c0)))
-                goals.append(Goal("one more skipped repetition recorded", lift(nsk) == 1))
+                goals.append(Goal("one more skipped repetition recorded", lift(nsk) == k0 + 1))
             return goals
         if not st.get("exit"):
             return [Goal("the loop was reached", False)]
@@ -280,7 +294,50 @@ def ob_loop_inductive(first):
         goals.append(Goal("exit: the final state is handed to save_partial_results", len(saved) == 1 and bool(lift(saved[0][0]) == c0)
                           if saved and not isinstance(lift(saved[0][0]) == c0, bool) else len(saved) == 1))
         return goals
-    return verify(body, check_side=False, timeout_ms=20000)
+
+    def replay(mv):
+        # native: one variation in which every success is preceded by (skipped_so_far + 1) skipped attempts, no stop rule
+        from pyphysim.simulations.runner import SimulationRunner, SkipThisOne
+        from pyphysim.simulations.results import SimulationResults, Result
+        try:
+            R = max(1, min(int(mv.get("rep_max", 2) or 2), 6)) + 1
+            k = max(0, min(int(mv.get("skipped_so_far", 3) or 3), 400)) + 1
+        except Exception:
+            R, k = 3, 12
+
+        class Rn(SimulationRunner):
+            def __init__(self):
+                super().__init__(read_command_line_args=False)
+                self.rep_max = R
+                self.params.add("a", [1, 2])
+                self.params.set_unpack_parameter("a")
+                self.update_progress_function_style = None
+                self.calls = {}
+                self.done = {}
+
+            def _run_simulation(self, p):
+                a = p["a"]
+                n = self.calls.get(a, 0)
+                self.calls[a] = n + 1
+                if a == 2 and n % (k + 1) != k:
+                    raise SkipThisOne("replay")
+                self.done[a] = self.done.get(a, 0) + 1
+                res = SimulationResults()
+                res.add_new_result("v", Result.SUMTYPE, 1)
+                return res
+        import warnings
+        try:
+            with warnings.catch_warnings():
+                warnings.simplefilter("ignore")
+                r = Rn()
+                r.simulate()
+            got = list(r.runned_reps)
+            vals = [x.get_result() for x in r.results["v"]]
+            return {"confirmed": got != [R, R] or vals != [R, R], "rep_max": R, "skips before every success (second combination)": k,
+                    "runned_reps": got, "stored sums": vals, "expected": [R, R]}
+        except Exception as e:
+            return {"confirmed": True, "rep_max": R, "skips before every success": k, "observed": "raised %r" % (e,)}
+    return verify(body, check_side=False, timeout_ms=20000, replay=replay)
 
 
 @obligation("runner/single_variation_dispatch", timeout=300,
@@ -406,12 +463,22 @@ def ob_lookup():
                 for fam in (range(len(SNR_FAMILIES)) if k >= 2 else (0,)):
                     for cont in (("array", "list") if k >= 2 else ("array",)):
                         yield {"names": names[:k], "lens": list(lens), "snr_family": fam, "container": cont}
+                # parameter NAMES that sort differently as plain strings, case-insensitively and "naturally" (numbered names)
+                if k >= 2:
+                    for alias in ({"Nr": "gain10", "SNR": "gain2", "scheme": "gain1b"}, {"Nr": "p_9", "SNR": "P_10", "scheme": "p_10"},
+                                  {"Nr": "b", "SNR": "B", "scheme": "a"}):
+                        yield {"names": names[:k], "lens": list(lens), "snr_family": 0, "container": "array", "alias": alias}
 
     def check(case):
         names, lens = case["names"], case["lens"]
         vals = {"Nr": [1, 2, 4], "SNR": SNR_FAMILIES[case["snr_family"]], "scheme": ["a", "b", "c"]}
         d = {n: np.array(vals[n][:l]) if (n != "scheme" and case["container"] == "array") else list(vals[n][:l])
              for n, l in zip(names, lens)}
+        alias = case.get("alias")
+        if alias:
+            d = {alias[n]: v for n, v in d.items()}
+            vals = {alias[n]: v for n, v in vals.items()}
+            names = [alias[n] for n in names]
         d["packed"] = [7, 8]
         d["x"] = 3
         p = SimulationParameters.create(d)
